@@ -21,7 +21,10 @@ func init() {
 }
 
 // Main runs property C02 / C03 / C05.
-func Main(prop, tier string) int {
+func Main(prop, tier string) int { return MainWith(prop, tier, nil) }
+
+// MainWith runs the in-process phase and then an optional extra phase on the same run.
+func MainWith(prop, tier string, post func(*vk.Run)) int {
 	r := vk.New(prop, tier)
 	switch prop {
 	case "C02":
@@ -31,13 +34,16 @@ func Main(prop, tier string) int {
 		r.Rule = "same workload as C02; V2 score/end compared with a whole-line int evaluation of the recurrence inside the domain N*M<=102400, upper bound by enumeration of every embedding for N<=14,M<=4; V1/exact/prefix/suffix compared with the linear evaluation of the reported occurrence; equal/boundary with their closed forms. distinct = (matcher, N bucket, M, score bucket, scheme) signatures of compared scores"
 		r.Assumptions = []string{"the reference recurrence is a transcription of the documented dynamic programme without window, slab, int16 or row-offset arithmetic", "bonus table re-derived from the documented constants"}
 	case "C05":
-		r.Rule = "every call (arbitrary slab history with stale contents, random representation/withPos) is compared with the same (line, query, options) evaluated with a nil slab, a fresh slab, the other representation (ASCII text) and the other withPos; distinct = (matcher, outcome, flags, length buckets, slab state, scheme)"
+		r.Rule = "every call (arbitrary slab history with stale contents, random representation/withPos) is compared with the same (line, query, options) evaluated with a nil slab, a fresh slab, the other representation (ASCII text) and the other withPos; distinct = (matcher, outcome, flags, length buckets, slab state, scheme); process/library level: for random sub-lists S of a list L of distinct lines, filtering S must give the full result restricted to S in the same order, under random option sets and tiebreak lists"
 		r.Assumptions = []string{"V2 with a slab smaller than N*M is a documented fallback to V1 and excluded from the nil-vs-slab equality"}
 	}
 	n := vk.NumWorkers()
 	r.Fanout("algo", n, 40*time.Minute)
 	if prop == "C05" {
 		r.Floor("pairs_compared", 1000)
+	}
+	if post != nil {
+		post(r)
 	}
 	if prop == "C03" {
 		r.Floor("v2_scores_compared", 1000)
